@@ -1,11 +1,49 @@
 // Package atomic (import path verif/vrt/vatomic) replaces "sync/atomic" in instrumented files.
 package atomic
 
-import "verif/vrt"
+import (
+	"sync/atomic"
+
+	"verif/vrt"
+)
 
 type (
 	Int32  = vrt.Int32
 	Uint32 = vrt.Uint32
 	Int64  = vrt.Int64
+	Uint64 = vrt.Uint64
 	Bool   = vrt.Bool
+	Value  = vrt.Value
 )
+
+type Pointer[T any] struct{ vrt.Pointer[T] }
+
+// function-style operations: each is a scheduling point followed by the native atomic
+func AddInt32(p *int32, d int32) int32     { vrt.Yield(-1); return atomic.AddInt32(p, d) }
+func AddInt64(p *int64, d int64) int64     { vrt.Yield(-1); return atomic.AddInt64(p, d) }
+func AddUint32(p *uint32, d uint32) uint32 { vrt.Yield(-1); return atomic.AddUint32(p, d) }
+func AddUint64(p *uint64, d uint64) uint64 { vrt.Yield(-1); return atomic.AddUint64(p, d) }
+func LoadInt32(p *int32) int32             { vrt.Yield(-1); return atomic.LoadInt32(p) }
+func LoadInt64(p *int64) int64             { vrt.Yield(-1); return atomic.LoadInt64(p) }
+func LoadUint32(p *uint32) uint32          { vrt.Yield(-1); return atomic.LoadUint32(p) }
+func LoadUint64(p *uint64) uint64          { vrt.Yield(-1); return atomic.LoadUint64(p) }
+func StoreInt32(p *int32, v int32)         { vrt.Yield(-1); atomic.StoreInt32(p, v) }
+func StoreInt64(p *int64, v int64)         { vrt.Yield(-1); atomic.StoreInt64(p, v) }
+func StoreUint32(p *uint32, v uint32)      { vrt.Yield(-1); atomic.StoreUint32(p, v) }
+func StoreUint64(p *uint64, v uint64)      { vrt.Yield(-1); atomic.StoreUint64(p, v) }
+func SwapInt32(p *int32, v int32) int32    { vrt.Yield(-1); return atomic.SwapInt32(p, v) }
+func SwapInt64(p *int64, v int64) int64    { vrt.Yield(-1); return atomic.SwapInt64(p, v) }
+func SwapUint32(p *uint32, v uint32) uint32 {
+	vrt.Yield(-1)
+	return atomic.SwapUint32(p, v)
+}
+func CompareAndSwapInt32(p *int32, o, n int32) bool { vrt.Yield(-1); return atomic.CompareAndSwapInt32(p, o, n) }
+func CompareAndSwapInt64(p *int64, o, n int64) bool { vrt.Yield(-1); return atomic.CompareAndSwapInt64(p, o, n) }
+func CompareAndSwapUint32(p *uint32, o, n uint32) bool {
+	vrt.Yield(-1)
+	return atomic.CompareAndSwapUint32(p, o, n)
+}
+func CompareAndSwapUint64(p *uint64, o, n uint64) bool {
+	vrt.Yield(-1)
+	return atomic.CompareAndSwapUint64(p, o, n)
+}
